@@ -10,16 +10,35 @@
 
 using namespace cppcms;
 
-// a locale whose numpunct uses a decimal comma and digit grouping
-struct comma_punct : public std::numpunct<char> {
-	char do_decimal_point() const override { return ','; }
-	char do_thousands_sep() const override { return '.'; }
-	std::string do_grouping() const override { return "\3"; }
+// stream locales whose numpunct differs from the classic one: decimal comma with and without
+// grouping, and locales that keep '.' but group digits (en_US / fr / de_CH style separators,
+// uniform and mixed group sizes)
+struct punct : public std::numpunct<char> {
+	char dp,ts; std::string gr;
+	punct(char d,char t,std::string const &g) : dp(d),ts(t),gr(g) {}
+	char do_decimal_point() const override { return dp; }
+	char do_thousands_sep() const override { return ts; }
+	std::string do_grouping() const override { return gr; }
 };
-static std::locale const &comma_locale()
+static std::vector<std::locale> const &locales()
 {
-	static std::locale loc(std::locale::classic(),new comma_punct);
-	return loc;
+	static std::vector<std::locale> v;
+	if(v.empty()) {
+		v.push_back(std::locale(std::locale::classic(),new punct(',','.',"\3")));   // 1.234.567,5
+		v.push_back(std::locale(std::locale::classic(),new punct('.',',',"\3")));   // 1,234,567.5
+		v.push_back(std::locale(std::locale::classic(),new punct('.',' ',"\3")));   // 1 234 567.5
+		v.push_back(std::locale(std::locale::classic(),new punct('.','\'',"\3")));  // 1'234'567.5
+		v.push_back(std::locale(std::locale::classic(),new punct('.',',',"\2\3"))); // 1,234,5,67.5 style mixed groups
+		v.push_back(std::locale(std::locale::classic(),new punct('.',',',"\3\2"))); // 12,34,567.5 (en_IN)
+		v.push_back(std::locale(std::locale::classic(),new punct(',','.',"")));      // 1234567,5
+	}
+	return v;
+}
+static std::locale const &comma_locale() { return locales()[0]; }
+// how this locale prints a number with a 7-digit integer part (shows that it is active)
+static std::string probe(std::locale const &l)
+{
+	std::ostringstream os; os.imbue(l); os<<std::setprecision(16)<<1234567.5; return os.str();
 }
 
 static std::string hex16(uint64_t v)
@@ -139,14 +158,14 @@ static std::string do_parse(std::string const &text,bool full)
 		if(ok!=ok0 || (ok && !exact_eq(v,v0)) || (!ok && line!=line0)) return "variant-mismatch istream "+r0;
 		if(!ok && show(v)!="s "+vh::hex(std::string("untouched"))) return "failed-parse-modified-target(istream)";
 	}
-	// istream with a decimal-comma/grouping locale imbued
-	{
+	// istream with each non-classic locale imbued
+	for(size_t li=0;li<locales().size();li++) {
 		std::istringstream is(text);
-		is.imbue(comma_locale());
+		is.imbue(locales()[li]);
 		json::value v;
 		bool ok=v.load(is,full);
-		if(ok!=ok0 || (ok && !exact_eq(v,v0))) return "variant-mismatch istream-locale "+r0;
-		if(is.getloc()!=comma_locale()) return "locale-not-restored";
+		if(ok!=ok0 || (ok && !exact_eq(v,v0))) return "variant-mismatch istream-locale#"+std::to_string(li)+" "+r0;
+		if(is.getloc()!=locales()[li]) return "locale-not-restored";
 	}
 	// operator>> (never forces eof)
 	if(!full) {
@@ -166,22 +185,33 @@ static std::string do_write(json::value const &v,bool readable)
 	try { t0=v.save(how); }
 	catch(json::bad_value_cast const &) {
 		// the stream variants must throw as well and restore the locale
-		std::ostringstream os; os.imbue(comma_locale());
-		try { v.save(os,how); return "variant-mismatch save(ostream) did not throw"; }
-		catch(json::bad_value_cast const &) {}
-		if(os.getloc()!=comma_locale()) return "locale-not-restored-after-throw";
+		for(size_t li=0;li<locales().size();li++) {
+			std::ostringstream os; os.imbue(locales()[li]);
+			try { v.save(os,how); return "variant-mismatch save(ostream) did not throw"; }
+			catch(json::bad_value_cast const &) {}
+			if(os.getloc()!=locales()[li]) return "locale-not-restored-after-throw";
+		}
 		return "throw";
 	}
 	{
 		std::ostringstream os; v.save(os,how);
 		if(os.str()!=t0) return "variant-mismatch save(ostream) "+vh::hex(os.str());
 	}
-	{
-		std::ostringstream os; os.imbue(comma_locale());
-		os<<1234.5<<'|';                       // show that the locale is active: 1.234,5
+	// "regardless of the stream's locale": the same text under every locale, locale left in place
+	for(size_t li=0;li<locales().size();li++) {
+		std::locale const &L=locales()[li];
+		std::string pr=probe(L);
+		std::ostringstream os; os.imbue(L);
+		os<<std::setprecision(16)<<1234567.5<<'|';   // the locale is active before ... (write_value leaves precision 16 behind)
 		v.save(os,how);
-		os<<'|'<<1234.5;
-		if(os.str()!="1.234,5|"+t0+"|1.234,5") return "variant-mismatch save(locale ostream) "+vh::hex(os.str());
+		os<<'|'<<1234567.5;                    // ... and after the write
+		if(os.str()!=pr+"|"+t0+"|"+pr) return "variant-mismatch save(ostream) under locale#"+std::to_string(li)+" "+vh::hex(os.str());
+		if(os.getloc()!=L) return "locale-not-restored locale#"+std::to_string(li);
+		if(!readable) {
+			std::ostringstream o2; o2.imbue(L); o2<<v;
+			if(o2.str()!=t0) return "variant-mismatch operator<< under locale#"+std::to_string(li)+" "+vh::hex(o2.str());
+			if(o2.getloc()!=L) return "locale-not-restored(operator<<) locale#"+std::to_string(li);
+		}
 	}
 	if(!readable) {
 		std::ostringstream os; os<<v;
